@@ -1384,6 +1384,74 @@ fn cmd_handlers(args: &[String]) {
     let _ = std::fs::remove_dir_all(&dir);
 }
 
+/// Size bound under racing handlers: `threads` handler threads leave a barrier together, each asking for its own,
+/// uncached file of 5/8 of the limit (each fits, no two fit together), round after round; an observer keeps taking
+/// the cache's READ guard and adds up what Cache::get returns for every key in use - a `sweep` record (the largest
+/// total seen in the round, and the first that exceeds the limit).  Same log format as `handlers`.
+fn cmd_sizerace(args: &[String]) {
+    let dir = std::path::PathBuf::from(&args[0]);
+    let rounds: usize = args[1].parse().unwrap();
+    let limit: usize = args[2].parse().unwrap();
+    let threads: usize = args[3].parse::<usize>().unwrap().max(1).min(8);
+    GLOBAL_CLOCK.store(BASE, Ordering::SeqCst);
+    let tl = 60usize;
+    let (state, site) = handler_state(&dir, limit, tl);
+    let site_s = site.to_str().unwrap().to_string();
+    let mut rng = Rng::from_env();
+    let log = HLog { seq: AtomicU64::new(1), events: Mutex::new(vec![]), limit, tl };
+    let names: Vec<String> = (0..threads).map(|i| format!("r{}.bin", i)).collect();
+    let uris: Vec<String> = names.iter().map(|n| format!("/{}", n)).collect();
+    let size = limit * 5 / 8;
+    for n in &names {
+        write_file(&log, &site, n, "application/octet-stream", &rng.bytes(size));
+    }
+    let stop = std::sync::atomic::AtomicBool::new(false);
+    let worst: Mutex<(usize, Option<Value>)> = Mutex::new((0, None));
+    std::thread::scope(|sc| {
+        {
+            let (state, log, uris, stop, worst) = (&state, &log, &uris, &stop, &worst);
+            sc.spawn(move || {
+                while !stop.load(Ordering::SeqCst) {
+                    let g = state.cache.read().unwrap_or_else(|e| e.into_inner());
+                    let total: usize = uris.iter().map(|u| catch_unwind(AssertUnwindSafe(|| g.get(u, 0).map(|i| i.data.len()).unwrap_or(0))).unwrap_or(0)).sum();
+                    let mut w = worst.lock().unwrap();
+                    if total > w.0 || (total > limit && w.1.is_none()) {
+                        let s = log.next();   // under the read guard: the position of the snapshot among the handler records
+                        let now = now_secs();
+                        w.0 = total;
+                        w.1 = Some(log.ev("sweep", s, 0, "", 0, "", total, 0, "", now, now, 0));
+                    }
+                    drop(w);
+                    drop(g);
+                    std::thread::yield_now();
+                }
+            });
+        }
+        for _round in 0..rounds {
+            let barrier = std::sync::Barrier::new(threads);
+            std::thread::scope(|sc2| {
+                for th in 0..threads {
+                    let (state, log, site_s, barrier, uri, name) = (&state, &log, &site_s, &barrier, &uris[th], &names[th]);
+                    sc2.spawn(move || {
+                        barrier.wait();
+                        handle(log, state, site_s, th, (uri.as_str(), 0, 0, name.as_str()));
+                    });
+                }
+            });
+            // the largest total of the round becomes a record
+            let mut w = worst.lock().unwrap();
+            if let Some(v) = w.1.take() {
+                let s = v["seq"].as_u64().unwrap_or(0);
+                log.events.lock().unwrap().push((s, v));
+            }
+            w.0 = 0;
+        }
+        stop.store(true, Ordering::SeqCst);
+    });
+    log.dump(threads);
+    let _ = std::fs::remove_dir_all(&dir);
+}
+
 /// The same on the unmodified wall clock: cache a file, rewrite it within the same second (same length),
 /// request again, let the time limit pass, request again; then once more across the next expiry.
 fn cmd_realhandlers(args: &[String]) {
@@ -1433,6 +1501,7 @@ fn main() {
         "lockstep" => cmd_lockstep(&args[1..]),
         "random" => cmd_random(&args[1..]),
         "handlers" => cmd_handlers(&args[1..]),
+        "sizerace" => cmd_sizerace(&args[1..]),
         "realclock" => cmd_realclock(),
         "realhandlers" => cmd_realhandlers(&args[1..]),
         "runseq" => cmd_runseq(&args[1..]),
